@@ -95,7 +95,7 @@ Definition nd_sort (fs : list field) : list field := sort_by sort_key (map_last 
 
 (** * Deb822DuplicateFieldsParagraphElement *)
 
-Definition order := list (N * field).
+Notation order := (list (N * field)) (only parsing).
 
 Definition is_node (id : N) (nf : N * field) : bool := (fst nf =? id)%N.
 
